@@ -353,7 +353,35 @@ def fam_grid_mesh(ctx, rng):
             ctx.violation(fam + ':face_area_centroid', 'face %d area centroid %r expected %r' % (k, gc, [float(x) for x in em]), desc); return
 
 
-FAMILIES = [(fam_one_reflex, 12), (fam_grid_mesh, 20), (fam_polygon, 40), (fam_face, 25), (fam_mesh, 25), (quad_mesh_general, 10), (fam_polyface, 12), (fam_mixed_solid, 40),
+def fam_concave_prism(ctx, rng):
+    """a prism over a base with re-entrant corners; a cap (and sometimes a wall) is handed over wound inward and started at each of
+    its vertices in turn - re-entrant ones included: the reported volume is the enclosed volume"""
+    from .C07 import exact_volume
+    frame = G.rational_frame(rng); o = G.rpt3(rng, 100.0)
+    emb = lambda p: P3(G.embed(frame, o, p))
+    b = rng.choice([[(0.0, 0.0), (6.0, 0.0), (6.0, 2.0), (2.0, 2.0), (2.0, 5.0), (0.0, 5.0)],
+                    [(0.0, 0.0), (8.0, 0.0), (8.0, 6.0), (5.0, 6.0), (5.0, 2.0), (3.0, 2.0), (3.0, 6.0), (0.0, 6.0)],
+                    G.star_polygon(rng, n=rng.randint(5, 8), R=10.0, center=(0.0, 0.0))])
+    h = G.dy(rng.uniform(1, 9))
+    faces = list(Polyface3D.from_offset_face(Face3D([emb(p) for p in b]), h).faces)
+    ref = abs(exact_volume(faces))
+    caps = [i for i, f in enumerate(faces) if len(f.boundary) == len(b)]
+    ci = rng.choice(caps[:2])
+    for k in range(len(b)):
+        bd = list(faces[ci].boundary); bd = bd[k:] + bd[:k]
+        trial = list(faces); trial[ci] = Face3D(bd[::-1])
+        desc = {'base': b, 'height': h, 'cap': ci, 'start': k, 'frame': frame, 'origin': o}
+        ctx.count('polyface3d.concave_prism', key=(len(b), ci, k), sample=desc, nontrivial=True)
+        try:
+            v = Polyface3D.from_faces(trial, 0.01).volume
+        except Exception as e:
+            ctx.violation('polyface3d:concave_prism:raises', '%r' % (e,), desc); return
+        if not X.close(v, ref, 1e-8):
+            ctx.violation('polyface3d:volume:concave_cap', 'a cap handed over inward, starting at its vertex %d: volume %r, enclosed volume %r' % (
+                k, v, float(ref)), desc); return
+
+
+FAMILIES = [(fam_concave_prism, 6), (fam_one_reflex, 12), (fam_grid_mesh, 20), (fam_polygon, 40), (fam_face, 25), (fam_mesh, 25), (quad_mesh_general, 10), (fam_polyface, 12), (fam_mixed_solid, 40),
             (fam_closed_forms, 15)]
 
 
